@@ -16,6 +16,13 @@ double _soxr_f_resp(double t, double a) { (void)t; (void)a; return -1.; }
 #if !defined VF_NATIVE
 int _soxr_trace_level; void _soxr_trace(char const * fmt, ...) { (void)fmt; }
 #endif
+#if defined VF_MAY_FAIL && defined KF_C20_FIFO_CREATE && !defined VF_NATIVE
+/* known finding excluded: the FIFO allocations of _soxr_init (result of fifo_create ignored) do not fail */
+static void * vf_fifo_malloc(size_t n) { void * p = malloc(n); __CPROVER_assume(p != 0); return p; }
+#define FIFO_REALLOC(a, b, c) realloc(a, b)
+#define FIFO_FREE free
+#define FIFO_MALLOC vf_fifo_malloc
+#endif
 #include "cr.c"
 #if !defined VF_NATIVE
 /* allocation model: the stage array (at most 2 entries for this recipe) as a typed, exactly sized object */
@@ -24,7 +31,12 @@ void * calloc(size_t n, size_t sz)
   static stage_t const zero;
   stage_t * s; size_t i;
   VF_ASSERT(sz == sizeof(stage_t) && n >= 1 && n <= 2, "harness: only the stage array is calloc'ed on this path");
-  s = malloc(sizeof(stage_t) * 2); VF_ASSUME(s != 0);
+  s = malloc(sizeof(stage_t) * 2);
+#ifdef VF_MAY_FAIL
+  if (!s) return 0;
+#else
+  VF_ASSUME(s != 0);
+#endif
   for (i = 0; i < 2; ++i) s[i] = zero;
   return s;
 }
@@ -48,6 +60,10 @@ VF_MAIN
   VF_ASSUME(in_ratio < 8191);
 #endif
   e = _soxr_init(&P, &sh, in_ratio, &q, &r, in_mult, &core, 0);
+#ifdef VF_MAY_FAIL
+  /* any subset of the allocations fails: the call reports an error or builds a complete object; nothing is dereferenced that was not allocated */
+  if (e) { _soxr_close(&P); VF_WITNESS(); return; }
+#endif
   VF_ASSERT(e == 0, "a valid quick-recipe configuration is accepted (C09)");
   VF_ASSERT(P.num_stages == ((in_ratio != 1 || in_mult != 1)? 1 : 0), "one cubic stage unless the conversion is an exact pass-through (C11/C12)");
   VF_ASSERT(P.io_ratio == in_ratio && P.samples_in == 0 && P.samples_out == 0 && !P.flushing, "fresh accounting state (C03/C15)");
